@@ -147,7 +147,7 @@ PROPERTIES = {
         ],
     },
     "C17": {
-        "modules": ["contracts.core_models", "contracts.c17_proofs"],
+        "modules": ["contracts.core_models", "contracts.c17_proofs", "contracts.c09_bounded", "contracts.c13_types", "contracts.c13_views"],
         "level": "other",
         "explanation": "two layers. PROVED from the real source (number of members enumerated, member widths symbolic): Record._make_serializable assigns member i the slice [w_0+..+w_i-1 : w_0+..+w_{i-1}] (first member at bit 0, contiguous, total = sum) and recomputes the layout unless the class' OWN __dict__ holds one (an inherited layout is not reused); Record._get_reverse_elem_list yields the members in reverse DECLARATION order for every construction order of the instance. BOUNDED (labelled, never counted as proved): the real std.to_bits / from_bits / count_bits / Serialized / BitField are executed on every bit pattern of every type composition of a pool (Bit, bool, BitVector/Unsigned/Signed, Enum/FlagEnum incl. sparse, SFixed/UFixed, cohdl.Array, std.Array incl. nested and of records, records nested / inherited twice / empty-derived / templated with nested templated members, records holding arrays of records) up to 10 (quick) / 13 (thorough) bits and compared with a reference decoding written from the property statement: decode, round trip, width == count_bits, wrong widths rejected, keyword construction in every order, Serialized.from_raw/value/bits, BitField field reads and writes touching exactly the declared range.",
         "assumptions": COMMON_ASSUME + [
